@@ -110,6 +110,12 @@ Press(k) ==
   \* a physical re-press (bounce within the release window) restarts the repeat cadence with the initial delay
   /\ mon' = [mon EXCEPT ![k].held = TRUE, ![k].hs = 0, ![k].se = 0, ![k].last = IF @ = "rep" THEN "P" ELSE @]
   /\ newev' = <<>> /\ ret' = {-1} /\ UNCHANGED <<kol, koh, fifo, hist>>
+\* the host reports a key that is already held once more (host auto-repeat): not an input change - the key keeps its place in
+\* the debounce / repeat cycle (pce500 KeyboardMatrix.press_key returns early; the Rust matrix restarts the debounce - a
+\* recorded finding)
+PressAgain(k) ==
+  /\ Step("Press", [ev |-> "Press", k |-> k]) /\ ks[k].pressed
+  /\ newev' = <<>> /\ ret' = {-1} /\ UNCHANGED <<ks, mon, kol, koh, fifo, hist>>
 Release(k) ==
   /\ Step("Release", [ev |-> "Release", k |-> k]) /\ ks[k].pressed
   /\ ks' = [ks EXCEPT ![k] = [@ EXCEPT !.pressed = FALSE, !.rt = 0]]
@@ -133,7 +139,7 @@ Consume ==
   /\ Step("Consume", [ev |-> "Consume"]) /\ fifo # <<>>
   /\ fifo' = <<>> /\ newev' = <<>> /\ ret' = {-1} /\ UNCHANGED <<ks, kol, koh, mon, hist>>
 
-Next == \/ \E k \in Keys : Press(k) \/ Release(k)
+Next == \/ \E k \in Keys : Press(k) \/ PressAgain(k) \/ Release(k)
         \/ \E v \in StrobeVals : WriteKOL(v)
         \/ ScanTick \/ ReadKIL \/ Consume
         \/ \E k \in Keys, r \in BOOLEAN : Inject(k, r)
